@@ -23,7 +23,11 @@ class Contract:
         self.props = props
         self.kind = kind
         self.name = spec.__name__
-        g = lambda a, d=None: _unwrap(spec.__dict__.get(a, d))
+        def g(a, d=None):
+            for klass in spec.__mro__:          # plain attribute inheritance between sidecar classes
+                if klass is not object and a in klass.__dict__:
+                    return _unwrap(klass.__dict__[a])
+            return _unwrap(d)
         self.params = g('params', {})
         self.requires = g('requires')
         self.returns = g('returns')
@@ -42,6 +46,7 @@ class Contract:
         self.total = g('total', False)          # no exception allowed at all
         self.modifies = g('modifies', [])       # fields of self havocked by a call
         self.updates = g('updates', {})         # {field of self: spec function of the PRE-state} (mutators)
+        self.assume_loops = g('assume_loops', ())   # loop invariants proved by another variant of the same function: assumed at exit here
         self.stop_after = g('stop_after', ())   # loop-invariant names after whose exit the path ends (phase proofs)
         self.quant_prune = g('quant_prune', True)   # use quantified facts to prune branches (slow when the pc holds big invariants)
         self.tier = g('tier', 'quick')          # 'thorough': verified in the thorough tier only (slow)
@@ -203,6 +208,7 @@ def verify_contract(c, timeout_ms=10000, explore_timeout_ms=3000):
         return rep
     I = make_interp(explore_timeout_ms, c.extended)
     I.stop_after_loops = set(c.stop_after)
+    I.assume_loops = set(c.assume_loops)
     I.ex.quant_prune = c.quant_prune
     prop = c.props[0] if c.props else 'C??'
     short = c.qual.replace('serif.', '', 1)
@@ -224,6 +230,7 @@ def verify_contract(c, timeout_ms=10000, explore_timeout_ms=3000):
             ' @ ' + traceback.format_tb(e.__traceback__)[-1].strip().replace('\n', ' | ')
     rep.source = dict(I.src.used)
     rep.assumptions = sorted(I.assumptions)
+    rep.explore_s = time.time() - t0
     for ob in rep.obligations:
         solve(ob, timeout_ms)
     rep.time_s = time.time() - t0
